@@ -174,12 +174,14 @@ class Extractor(object):
             pre = tuple(self.simple(st.iter if isinstance(st, ast.For) else st.test))
             body = self.block(st.body)
             out = {(pre, FALL): 1}
-            has_ev = any(e for (e, k) in body)
+            broken = {}
             for (e, k) in body:
-                if k in (FALL, BRK, CONT):
-                    if has_ev or True:
-                        seq = pre + (Ev(("loop",)),) + e + (Ev(("endloop",)),)
-                        out[(seq if e else pre, FALL)] = 1
+                if k in (FALL, CONT):
+                    seq = pre + (Ev(("loop",)),) + e + (Ev(("endloop",)),)
+                    out[(seq if e else pre, FALL)] = 1
+                elif k == BRK:
+                    seq = pre + (Ev(("loop",)),) + e + (Ev(("endloop",)),)
+                    broken[(seq if e else pre, FALL)] = 1
                 else:
                     out[(pre + (Ev(("loop",)),) + e if e else pre, k)] = 1
             if st.orelse:
@@ -190,7 +192,9 @@ class Extractor(object):
                             res[(e + e2, k2)] = 1
                     else:
                         res[(e, k)] = 1
+                res.update(broken)      # a `break` skips the else clause
                 return list(res)
+            out.update(broken)
             return list(out)
         if isinstance(st, ast.Try):
             body = self.block(st.body)
